@@ -1,6 +1,7 @@
 package p32
 
 import (
+	"github.com/RoaringBitmap/roaring/v2"
 	"fmt"
 	"runtime"
 	"testing"
@@ -71,7 +72,57 @@ func propC15(t *rapid.T) {
 	}
 	nontrivial := false
 	args := ""
-	for i := 0; i < 16; i++ {
+	for i := 0; i < 24; i++ {
+		if i == 16 {
+			// second phase: the same bitmap after a few in-place changes (whatever an earlier query remembered is stale now)
+			if m.IsEmpty() {
+				break
+			}
+			for j := 0; j < rapid.IntRange(1, 3).Draw(t, "nchanges"); j++ {
+				y := uint64(gen.Value32(t, "cv", m))
+				switch rapid.IntRange(0, 4).Draw(t, "change") {
+				case 0:
+					// union with a few values below / inside an existing chunk
+					base := y &^ 0xFFFF
+					vals := []uint32{uint32(base + gen.Low(t, "lowA")), uint32(base + gen.Low(t, "lowB")), uint32(y)}
+					b.Or(roaring.BitmapOf(vals...))
+					m.AddValues32(vals)
+					args += fmt.Sprintf(" |Or%v|", vals)
+				case 1:
+					e := y + uint64(rapid.SampledFrom([]int{1, 64, 3000, 65536}).Draw(t, "fw"))
+					if e > model.Max32+1 {
+						e = model.Max32 + 1
+					}
+					b.Flip(y, e)
+					m.FlipRange(y, e-1)
+					args += fmt.Sprintf(" |Flip(%d,%d)|", y, e)
+				case 2:
+					b.Remove(uint32(y))
+					m.Remove(y)
+					args += fmt.Sprintf(" |Remove(%d)|", y)
+				case 3:
+					o := roaring.BitmapOf(uint32(y), uint32(y)^1, uint32(y)^64)
+					b.Xor(o)
+					for _, v := range []uint64{y, y ^ 1, y ^ 64} {
+						if m.Contains(v) {
+							m.Remove(v)
+						} else {
+							m.Add(v)
+						}
+					}
+					args += fmt.Sprintf(" |Xor{%d,%d,%d}|", y, y^1, y^64)
+				default:
+					e := y + uint64(rapid.SampledFrom([]int{1, 100, 70000}).Draw(t, "rw"))
+					if e > model.Max32+1 {
+						e = model.Max32 + 1
+					}
+					b.RemoveRange(y, e)
+					m.RemoveRange(y, e-1)
+					args += fmt.Sprintf(" |RemoveRange(%d,%d)|", y, e)
+				}
+			}
+			inst.Count("C15", "second-phase-after-changes")
+		}
 		x := gen.Value32(t, "t", m)
 		args += fmt.Sprintf(" %d", x)
 		ux := uint64(x)
